@@ -42,49 +42,110 @@ def list_harnesses(eng, module):
     return ['%s::%s' % (module, f) for f in re.findall(r'^pub fn (h_\w+)\s*\(\s*\)', src, re.M)]
 
 
-def _child_main(eng, fn, name):
-    rtm.explore_harness(eng, fn, name)
+def _worker_loop(eng, q, queued, outstanding, idle, out_root, nworkers):
+    fns = {}
+    while True:
+        with idle.get_lock():
+            idle.value += 1
+        task = q.get()
+        with idle.get_lock():
+            idle.value -= 1
+        if task is None:
+            break
+        with queued.get_lock():
+            queued.value -= 1
+        name, prefix = task
+        fn = fns.get(name)
+        if fn is None:
+            fn = fns[name] = find_harness(eng, name)
+        eng.out_dir = os.path.join(out_root, name.replace('::', '.'))
+
+        def donate(pending, name=name):
+            # hand the shallowest pending prefix (largest subtree) to an idle worker
+            if len(pending) > 1 and idle.value > 0 and queued.value < nworkers:
+                pre = pending.pop(0)
+                with outstanding.get_lock():
+                    outstanding.value += 1
+                with queued.get_lock():
+                    queued.value += 1
+                q.put((name, pre))
+        try:
+            rtm.explore_task(eng, fn, name, prefix, donate)
+        except BaseException as e:
+            try:
+                eng.emit({'type': 'error', 'detail': 'worker failed: %r' % (e,)})
+                eng.close_out()
+            except Exception:
+                pass
+        with outstanding.get_lock():
+            outstanding.value -= 1
 
 
 def explore(eng, names, out_root, jobs=15, deadline=None, max_paths=200000):
-    """explore each harness in a process of its own (at most `jobs` at a time); returns {name: [records]}"""
+    """explore the path trees of all harnesses with a pool of `jobs` worker processes that share work
+    (decision prefixes) through a queue; returns {name: [records]}"""
     os.makedirs(out_root, exist_ok=True)
-    results = {}
     gc.collect()
     gc.freeze()
-    todo = list(names)
-    running = {}
-
-    def launch(name):
-        fn = find_harness(eng, name)
+    nworkers = max(1, min(jobs, 32))
+    q = multiprocessing.SimpleQueue()
+    queued = multiprocessing.Value('i', 0)
+    outstanding = multiprocessing.Value('i', 0)
+    idle = multiprocessing.Value('i', 0)
+    for name in names:
+        find_harness(eng, name)
         d = os.path.join(out_root, name.replace('::', '.'))
         shutil.rmtree(d, ignore_errors=True)
         os.makedirs(d)
-        sys.stdout.flush()
-        sys.stderr.flush()
+        with outstanding.get_lock():
+            outstanding.value += 1
+        with queued.get_lock():
+            queued.value += 1
+        q.put((name, []))
+    sys.stdout.flush()
+    sys.stderr.flush()
+    pids = []
+    for w in range(nworkers):
         pid = os.fork()
         if pid == 0:
             try:
-                eng.out_dir = d
                 eng.max_paths = max_paths
                 eng.deadline = deadline
-                eng.is_root = False      # so that finish_process exits this process
+                eng.is_root = False
                 threading.stack_size(512 * 1024 * 1024)
                 sys.setrecursionlimit(100000)
-                th = threading.Thread(target=_child_main, args=(eng, fn, name))
+                th = threading.Thread(target=_worker_loop, args=(eng, q, queued, outstanding, idle, out_root, nworkers))
                 th.start()
                 th.join()
                 sys.stdout.flush()
                 sys.stderr.flush()
                 os._exit(0)
             except BaseException as e:
-                sys.stderr.write('harness root failed: %r\n' % (e,))
+                sys.stderr.write('worker failed: %r\n' % (e,))
             finally:
                 os._exit(3)
-        running[pid] = (name, d)
-
-    def collect(pid, st):
-        name, d = running.pop(pid)
+        pids.append(pid)
+    alive = set(pids)
+    bad = []
+    while outstanding.value > 0 and alive:
+        time.sleep(0.05)
+        # a worker that died takes its task with it: detect and stop
+        for pid in list(alive):
+            r, st = os.waitpid(pid, os.WNOHANG)
+            if r:
+                alive.discard(pid)
+                bad.append((pid, st))
+        if bad:
+            break
+    for _ in alive:
+        q.put(None)
+    for pid in alive:
+        _, st = os.waitpid(pid, 0)
+        if st != 0:
+            bad.append((pid, st))
+    results = {}
+    for name in names:
+        d = os.path.join(out_root, name.replace('::', '.'))
         recs = []
         for f in glob.glob(os.path.join(d, 'p.*.jsonl')):
             with open(f) as fh:
@@ -92,16 +153,10 @@ def explore(eng, names, out_root, jobs=15, deadline=None, max_paths=200000):
                     line = line.strip()
                     if line:
                         recs.append(json.loads(line))
-        if st != 0:
-            recs.append({'type': 'error', 'detail': 'harness process exit status %d' % st})
         results[name] = recs
-
-    while todo or running:
-        while todo and len(running) < max(jobs, 1):
-            launch(todo.pop(0))
-        pid, st = os.wait()
-        if pid in running:
-            collect(pid, st)
+    if bad:
+        for name in names:
+            results[name].append({'type': 'error', 'detail': 'worker process(es) exited abnormally: %s' % bad[:3]})
     return results
 
 
